@@ -278,7 +278,7 @@ func (sh sharedSlices) get(typ int, toks []string, mk func() interface{}) interf
 	if sh == nil {
 		return mk()
 	}
-	k := fmt.Sprint(typ, toks)
+	k := fmt.Sprintf("%d %q", typ, toks) // %q: [""] and [] are different defaults
 	if v, ok := sh[k]; ok {
 		return v
 	}
